@@ -36,3 +36,10 @@ add("C13", "fault enumeration: every accept/reject/raise outcome sequence up to 
 add("C16", "invariant monitor on the real one-step map (finite-difference Jacobian against the extended canonical form, S_-h o S_h = id) + convergence-rate and long-run energy monitors against an independent exact flow (SciPy DOP853 on J grad H from the coefficient dictionary)",
     "held on the observed executions: random polynomial Hamiltonians of degree <= 6 in 3 dof (separable, non-separable, q.p cross terms), orders 2/4/6/8, steps +-[1e-3,0.2], omega in [0.5,50]; asymptotic rates from the finest conclusive pair; 20k-60k step energy records",
     "rates judged only inside the conclusive error window [2e-12,1e-3]; omega held fixed for the order clause as the property states; energy clause on bounded small-amplitude motions only")
+add("C17", "twin-execution monitor (translation-validation style): every program variant run on the polynomial Hamiltonian system and on an independently generated generic vector field J grad H, results compared; plus independent gradient oracle for rhs/dH_dQ/dH_dP and the centre-manifold stepping copy",
+    "held on the observed twin executions: random polynomial Hamiltonians (degree <= 5 quick, <= 8 thorough) x fixed 4/6/8, RK45, DOP853 in locked-step and free mode x grids/tolerances x three event functions (affine, mixed, time dependent) x directions; trajectories, derivatives, hit decision, event time/state",
+    "free-mode adaptive comparisons allow 200 x tolerance because a last-bit difference may flip an accept/reject decision; hit/no-hit within 1e-6 of the span end not judged",
+    category="translation_validation")
+add("C18", "runtime enumeration of the live conversion registry + round-trip identity and independent-evaluation oracles (dictionary evaluation of packed polynomials at transformed points) on pipeline Hamiltonians and random polynomials",
+    "held on the observed executions: every registered edge executed at L1/L2(/L3) for several mass ratios and degrees; all five inverse pairs round-tripped on pipeline Hamiltonians and on random (non-Hamiltonian) polynomials; polynomial-vs-coordinate agreement at random complex points; all point maps inverted at L1..L5",
+    "tolerances scale with cond(C)^degree for the physical<->modal change; forms that the library itself declines to build for a point are skipped and counted")
